@@ -7,3 +7,5 @@ import Bmc.Proofs.C01
 #print axioms Bmc.Proofs.C01.keys_agree
 #print axioms Bmc.Proofs.C01.transmits_spec_datagrams
 #print axioms Bmc.Proofs.C01.hfit_of_lawful
+#print axioms Bmc.Proofs.C01.response_returned
+#print axioms Bmc.Proofs.C01.responseMsg_wf
